@@ -432,11 +432,17 @@ func (f *frame) callContract(st *State, callee *ssa.Function, cc *Contract, args
 		return nil
 	}
 	// frame: havoc what the callee may modify
+	// "all" first (it keeps the ghost variables), then the listed locations -
+	// after "modifies all" only ghost variables still matter
+	for _, m := range cc.Modifies {
+		if _, all := sc.lvalues(m.Expr); all {
+			vc.havocAll(st)
+		}
+	}
 	for _, m := range cc.Modifies {
 		locs, all := sc.lvalues(m.Expr)
 		if all {
-			vc.havocAll(st)
-			break
+			continue
 		}
 		for _, l := range locs {
 			if l.ref == "" {
@@ -454,6 +460,40 @@ func (f *frame) callContract(st *State, callee *ssa.Function, cc *Contract, args
 		vc.assume("(>= " + a + " " + st.alloc + ")")
 		st.alloc = a
 	}
+	forked := false
+	if vc.panicSink != nil && (cc.MayPanic || cc.PanicsIf != nil || len(cc.OnPanic) > 0) {
+		// panics are control flow here: the callee may end in a panic (after
+		// whatever it modified), which the deferred calls of the function
+		// under contract get to see
+		var pc string
+		if cc.PanicsIf != nil {
+			n := *sc
+			n.st = pre
+			pc = n.evalBool(cc.PanicsIf.Expr)
+		} else {
+			pc = vc.fresh("calleepanics")
+			vc.declare(pc, SBool)
+		}
+		ps := st.clone()
+		ps.reach = vc.nameBool("cpanic", and(st.reach, pc))
+		pv := vc.freshPanicValue()
+		ps.pval = pv
+		// what the callee promises about the state it panics in
+		for _, e := range cc.OnPanic {
+			n := *sc
+			n.st = ps
+			vc.assumeUnder(ps.reach, n.evalBool(e.Expr))
+		}
+		if f.isTop && cc.PanicsIf == nil {
+			// vacuity guard: the assumptions about the panicking callee are satisfiable
+			if o := vc.oblige(ps, "cover.callee_panics", "false", "the path on which "+short+" panics is reachable (vacuity guard)", pos, false); o != nil {
+				o.Cover = true
+			}
+		}
+		vc.raise(ps, pv)
+		st.reach = vc.nameBool("creturn", and(st.reach, not(pc)))
+		forked = true
+	}
 	res := f.freshResult(callee.Signature, "r_"+sanitize(callee.Name()))
 	f.assumeAllocatedVal(st, res)
 	bindResults(sc, cc, res)
@@ -465,7 +505,7 @@ func (f *frame) callContract(st *State, callee *ssa.Function, cc *Contract, args
 		sc.vars[g.Name] = gv
 	}
 	sc.st = st
-	if cc.PanicsIf != nil {
+	if cc.PanicsIf != nil && !forked {
 		// the call returned, so the panic condition was false
 		n := *sc
 		n.st = pre
@@ -649,10 +689,14 @@ func (f *frame) invoke(st *State, com *ssa.CallCommon, instr ssa.Instruction, po
 		return nil
 	}
 	for _, m := range ic.Modifies {
+		if _, all := sc.lvalues(m.Expr); all {
+			vc.havocAll(st)
+		}
+	}
+	for _, m := range ic.Modifies {
 		locs, all := sc.lvalues(m.Expr)
 		if all {
-			vc.havocAll(st)
-			break
+			continue
 		}
 		for _, l := range locs {
 			if l.ref == "" {
@@ -685,6 +729,16 @@ func (f *frame) builtin(st *State, bi *ssa.Builtin, com *ssa.CallCommon, instr s
 	vc := f.vc
 	it := types.Typ[types.Int]
 	switch bi.Name() {
+	case "recover":
+		// live only while the deferred calls of the function under contract run
+		// on a panic exit: returns the panic value and stops the panic
+		et := types.NewInterfaceType(nil, nil)
+		if !vc.inDefers || st.panicking == "" || st.panicking == "false" {
+			return &Term{"(mk-iface 0 0)", SIface, et}
+		}
+		r := vc.define("recovered", &Term{ite(st.panicking, st.pval, "(mk-iface 0 0)"), SIface, et})
+		st.panicking = "false"
+		return r
 	case "len", "cap":
 		x := vc.term(st, com.Args[0])
 		switch u := com.Args[0].Type().Underlying().(type) {
